@@ -593,3 +593,63 @@ theorem tokensLoop_fuel (dia : Dialect) (pol : Policy) : ∀ (f1 f2 : Nat) (s : 
           · subst hs
             simp only [] at hlt
             exact ih f2 _ _ l (by show p.rest.length < f1; omega) (by show p.rest.length < f2; omega)
+
+/-! ### the initial state: cif_parse_internal's set-up and get_first_char -/
+
+theorem getFirstChar_len (fix : Bool) (src : Src) : ∀ r, getFirstChar fix src = some r → r.1.length ≤ 2 := by
+  intro r h
+  unfold getFirstChar at h
+  simp only [] at h
+  split at h
+  · cases h
+  · split at h
+    · split at h
+      · cases h; simp
+      · split at h
+        · split at h <;> (cases h; simp)
+        · cases h; simp
+    · cases h; simp
+
+theorem init_abs (mf size : Nat) (chunks : List Str) (hmf : 1 ≤ mf) (hsize : 2 ≤ size) (hne : ∀ c ∈ chunks, c ≠ []) :
+    Abs mf (BS.init size ⟨chunks⟩) (Scan.init (normalizeEOL chunks.flatten)) := by
+  have hfix : Gen.ParseConsts.firstCharFoldsSecondCR = true := by decide
+  have hspec := getFirstChar_spec Gen.ParseConsts.firstCharFoldsSecondCR ⟨chunks⟩ hne (Or.inl hfix)
+  have hinit : (SB.init size).Inv := ⟨Nat.le_refl _, Nat.le_refl _, Nat.le_refl _, Nat.zero_le _, by simp [SB.init]⟩
+  unfold BS.init
+  cases hg : getFirstChar Gen.ParseConsts.firstCharFoldsSecondCR ⟨chunks⟩ with
+  | none =>
+    rw [hg] at hspec
+    simp only [] at hspec
+    have hflat : chunks.flatten = [] := hspec
+    refine ⟨⟨hinit, by show 1 ≤ size; omega, hmf, hne, fun _ => hspec⟩, rfl, ?_, rfl, rfl, rfl⟩
+    show (SB.init size).unread ++ normFrom false (Src.flat ⟨chunks⟩) = normalizeEOL chunks.flatten
+    rw [hflat]
+    simp [SB.unread, SB.init, Src.flat, hflat, normalizeEOL, normFrom_nil]
+  | some r =>
+    rw [hg] at hspec
+    simp only [] at hspec
+    obtain ⟨e1, e2, e3, _⟩ := hspec
+    have hl := getFirstChar_len _ _ r hg
+    have ap := append_spec (SB.init size) r.1 hinit (by show r.1.length ≤ size - 0; omega)
+    refine ⟨⟨ap.1, by show 1 ≤ size; omega, hmf, e2, e3⟩, rfl, ?_, rfl, rfl, rfl⟩
+    show (append (SB.init size) r.1).unread ++ normFrom r.2.1.crPending r.2.2.flat = normalizeEOL chunks.flatten
+    rw [ap.2.2.2]
+    have : (SB.init size).unread = [] := by simp [SB.unread, SB.init]
+    rw [this, List.nil_append, e1]
+    rfl
+
+/-- **buffer-level scanner = list-level lexer on the normalised input**, for every chunking and initial buffer size -/
+theorem tokenizeB_eq (dia : Dialect) (mf size : Nat) (pol : Policy) (chunks : List Str) (hmf : 1 ≤ mf) (hsize : 2 ≤ size)
+    (hne : ∀ c ∈ chunks, c ≠ []) :
+    ((tokenizeB dia mf size pol chunks).1.map (·.tok), (tokenizeB dia mf size pol chunks).2.1, (tokenizeB dia mf size pol chunks).2.2)
+      = tokenizeWith dia pol (normalizeEOL chunks.flatten) := by
+  have a := init_abs mf size chunks hmf hsize hne
+  have h := tokensLoopB_sim dia mf pol (chunks.flatten.length + 1) _ _ [] [] [] a rfl
+  have hlen : (normalizeEOL chunks.flatten).length ≤ chunks.flatten.length := normFrom_length_le false _
+  have hf := tokensLoop_fuel dia pol (chunks.flatten.length + 1) ((normalizeEOL chunks.flatten).length + 1)
+    (Scan.init (normalizeEOL chunks.flatten)) [] [] (by show (normalizeEOL chunks.flatten).length < _; omega)
+    (by show (normalizeEOL chunks.flatten).length < _; omega)
+  rw [hf] at h
+  unfold tokenizeB tokenizeWith
+  simp only []
+  rw [h.1, h.2]
